@@ -357,6 +357,7 @@ func (n *node) RegisterName(name gen.Atom, pid gen.PID) error {
 		return gen.ErrProcessTerminated
 	}
 
+	lib.VerifPoint("node.regname.alive", pid)
 	if p.registered.CompareAndSwap(false, true) == false {
 		return gen.ErrTaken
 	}
@@ -366,6 +367,7 @@ func (n *node) RegisterName(name gen.Atom, pid gen.PID) error {
 		return gen.ErrTaken
 	}
 
+	lib.VerifPoint("node.regname.stored", pid)
 	p.name = name
 
 	return nil
@@ -381,6 +383,7 @@ func (n *node) UnregisterName(name gen.Atom) (gen.PID, error) {
 		return gen.PID{}, gen.ErrNameUnknown
 	}
 	p := value.(*process)
+	lib.VerifPoint("node.unregname.deleted", p.pid)
 	p.name = ""
 	p.registered.Store(false)
 
